@@ -2,6 +2,6 @@
    UnmarshalText (MarshalText t) = t. *)
 From Coq Require Import List NArith Bool.
 Require Import Bytes Tables.
-Definition bad_msgtypes_text : list N := filter (fun t => negb (optN_eqb (unmarshal_type (marshal_type t)) t)) (upto 65536).
-Lemma msgtypes_text_ok : bad_msgtypes_text = nil.
-Proof. vm_compute. reflexivity. Qed.
+Import ListNotations.
+Lemma msgtypes_text_ok : filter (fun t => negb (msgtype_text_okb t)) all_types = [].
+Proof. by_vm. Qed.
